@@ -983,6 +983,7 @@ class State:
             args = [] if sp == "%%" else [v, v] if sp == "a%sb%sc" else [v]
             lines.append("n%d F %s %s" % (len(lines), hexs(sp.encode()), vals_tok(args))); meta.append(("f", (sp, args)))
         impl, model = self.both(lines)
+        self.c_ref = real_c_printf(ck, meta)
         for i, (kind, v) in enumerate(meta):
             if i >= len(impl) or i >= len(model):
                 break
@@ -1019,6 +1020,13 @@ class State:
             else:
                 sp, args = v
                 exp = c_printf(sp, args)
+                if exp is not None and i in self.c_ref:
+                    # the platform's own printf is the reference where available (the Python rendering is a fallback
+                    # and is cross-checked against it: a disagreement is a defect of this check, not of golua)
+                    if self.c_ref[i] != exp:
+                        ck.count("reference:python-vs-C-printf-disagree")
+                        ck.notes.append("c_printf(%r, %r) = %r but C printf gives %r; C used" % (sp, args, exp, self.c_ref[i]))
+                    exp = self.c_ref[i]
                 got = go_class(gi.get("F", "?"))
                 if exp is None:
                     continue
@@ -1029,10 +1037,6 @@ class State:
                         kid = "C17-format-o-negative"
                     elif sp[-1] in "xXo" and "#" in sp and args and args[0] == 0:
                         kid = None
-                    if sp[-1] == "c" and (re.search(r"\.\d", sp)):
-                        kid = "C17-format-c-precision"
-                    if sp[-1] in "diuxXo" and "." in sp and "0" in sp[1:sp.index(".")].rstrip("123456789"):
-                        kid = kid or "C17-format-zero-flag-with-precision"
                     if kid and self.known(kid):
                         ck.count("known:" + kid)
                     else:
@@ -1063,6 +1067,47 @@ def lua_eq(tok, v):
         x = struct.unpack("<d", struct.pack("<Q", int(tok[1:], 16)))[0]
         return x == v
     return False
+
+
+def real_c_printf(ck, meta):
+    """index -> bytes as produced by the C library's printf (gcc-built helper), for the integer/char directives
+    whose behaviour C defines; {} if no C compiler is available."""
+    src = os.path.join(vlib.VERIF, "lib", "props", "C17.printf.c")
+    exe = os.path.join(ck.work, "cprintf")
+    try:
+        if not os.path.exists(exe) or os.path.getmtime(exe) < os.path.getmtime(src):
+            rc, so, se = vlib.sh(["gcc", "-w", "-O0", "-o", exe, src], timeout=120)
+            if rc != 0:
+                return {}
+    except Exception:
+        return {}
+    idx, lines = [], []
+    for i, (kind, v) in enumerate(meta):
+        if kind != "f":
+            continue
+        sp, args = v
+        conv = sp[-1]
+        if conv not in "diuxXoc" or sp == "%%" or c_printf(sp, args) is None:
+            continue
+        body = sp[1:-1]
+        if conv == "c":
+            lines.append("%%%sc c %d" % (body, args[0]))
+        elif conv in "di":
+            lines.append("%%%slld s %d" % (body, args[0]))
+        else:
+            lines.append("%%%sll%s u %d" % (body, conv, args[0] % (1 << 64)))
+        idx.append(i)
+    if not lines:
+        return {}
+    rc, out, _ = vlib.run_lines(exe, [], lines, timeout=120)
+    if rc != 0 or len(out) != len(lines):
+        return {}
+    res = {}
+    for i, o in zip(idx, out):
+        if o != "?":
+            res[i] = bytes.fromhex(o) if o != "-" else b""
+    ck.count("reference:C-printf-cases", len(res))
+    return res
 
 
 def c_printf(sp, args):
